@@ -19,15 +19,12 @@ import (
 var (
 	seed    uint64
 	streams = map[string]*DRBG{}
-	// Draws counts bytes served per stream label (evidence).
-	Draws = map[string]uint64{}
 )
 
 // Reseed starts a fresh family of streams (called at the start of each run).
 func Reseed(s uint64) {
 	seed = s
 	streams = map[string]*DRBG{}
-	Draws = map[string]uint64{}
 }
 
 // DRBG is a deterministic random byte generator.
@@ -75,7 +72,6 @@ func (d *DRBG) Read(p []byte) (int, error) {
 	}
 	d.ctr.XORKeyStream(p, p)
 	d.N += uint64(len(p))
-	Draws[d.label] += uint64(len(p))
 	return len(p), nil
 }
 
